@@ -411,6 +411,9 @@ Lemma dead_shape : finished dead = false /\ map (status_of dead) [0; 1] = [Spin;
   map (fun g => map (fun x => (a_task x, a_mode x)) (stack g)) (agents dead) = [[(0, MWaitSet 3)]; [(3, MWaitFut 1); (1, MWaitSet 2)]].
 Proof. vm_compute. repeat split; reflexivity. Qed.
 
+(* [dead] is a big computed term: keep hnf / simpl away from it (vm_compute still evaluates it) *)
+Global Opaque dead.
+
 (* nothing can ever move again: the root spins in its wait, the worker sleeps in the futex *)
 Lemma dead_step a ch : step dead a ch = None \/ exists ch' site, step dead a ch = Some (dead, ch', site).
 Proof.
@@ -424,7 +427,11 @@ Qed.
 Lemma dead_forever s : reach step dead s -> s = dead.
 Proof.
   intros R. induction R as [|s1 t ch s2 ch2 site R IH E]; [reflexivity|]. subst s1.
-  destruct (dead_step t ch) as [N|(c & st & S)]; rewrite E in *; [discriminate | inversion S; reflexivity].
+  destruct (dead_step t ch) as [N|(c & st & S)].
+  - rewrite N in E. discriminate E.
+  - rewrite S in E.
+    apply (f_equal (fun o : option (state * list Z * Z) => match o with Some (x, _, _) => x | None => s2 end)) in E.
+    cbv beta iota in E. symmetry. exact E.
 Qed.
 
 Lemma witness_acyclic : acyclic witness.
@@ -443,8 +450,8 @@ Proof.
   exists witness, 1, dead. split; [exact witness_acyclic|]. split; [exact dead_reachable|]. destruct dead_shape as (F & St & _).
   split; [exact F|]. split; [|exact dead_forever].
   intros a. destruct a as [|[|a]].
-  - inversion St as [[E0 E1]]. rewrite E0. discriminate.
-  - inversion St as [[E0 E1]]. rewrite E1. discriminate.
+  - assert (E0 : status_of dead 0 = Spin) by (vm_compute; reflexivity). rewrite E0. discriminate.
+  - assert (E1 : status_of dead 1 = Blocked) by (vm_compute; reflexivity). rewrite E1. discriminate.
   - unfold status_of. replace (length (agents dead) <=? S (S a)) with true; [discriminate|]. symmetry. apply Nat.leb_le. vm_compute. lia.
 Qed.
 
